@@ -458,7 +458,12 @@ Definition serve_clauses (s : srt) (o : line) (r : list bytes) : list bytes :=
          match alookup pat lt' with
          | Some ts =>
            check (inst_match (c_ic (tc s)) ts ps path) "C01:path-is-not-the-pattern-with-reported-values" ++
-           check (same_keys ps (capture_names ts)) "C01:reported-parameters-not-exactly-the-capturing-ones"
+           check (same_keys ps (capture_names ts)) "C01:reported-parameters-not-exactly-the-capturing-ones" ++
+           (* C10's round trip: a route without '-' parameters rebuilds the request path from what was captured *)
+           (if forallb (fun t => match t with TPar true _ _ => false | _ => true end) ts
+            then check (match instantiate ts ps with Some x => beqb x path | None => false end)
+                       "C10:captured-parameters-do-not-rebuild-the-request-path"
+            else [])
          | None => []
          end
        | None => []
